@@ -420,6 +420,9 @@ func p18(p float64) sbig {
 	return sbig{s, limbs(bi)}
 }
 
+// mwReuse, when set, is the pair of buffers every call of the current history writes its samples into.
+var mwReuse *[2][]float64
+
 func mwCall(ev *mwEvent, x1, x2 []int64, f func(int64) float64, alt int, rng *rand.Rand) {
 	a, b := make([]float64, len(x1)), make([]float64, len(x2))
 	for i, v := range x1 {
@@ -432,8 +435,19 @@ func mwCall(ev *mwEvent, x1, x2 []int64, f func(int64) float64, alt int, rng *ra
 		rng.Shuffle(len(a), func(i, j int) { a[i], a[j] = a[j], a[i] })
 		rng.Shuffle(len(b), func(i, j int) { b[i], b[j] = b[j], b[i] })
 	}
-	a, oka := guarded(a)
-	b, okb := guarded(b)
+	oka, okb := func() bool { return true }, func() bool { return true }
+	if mwReuse != nil && len(a) <= len(mwReuse[0]) && len(b) <= len(mwReuse[1]) {
+		// the caller's two measurement buffers, refilled for every call (same addresses, same lengths now and then)
+		ka, kb := append([]float64{}, a...), append([]float64{}, b...)
+		copy(mwReuse[0], a)
+		copy(mwReuse[1], b)
+		a, b = mwReuse[0][:len(a)], mwReuse[1][:len(b)]
+		oka = func() bool { return bitsEqual(a, ka) }
+		okb = func() bool { return bitsEqual(b, kb) }
+	} else {
+		a, oka = guarded(a)
+		b, okb = guarded(b)
+	}
 	res, err := stats.MannWhitneyUTest(a, b, stats.LocationHypothesis(alt))
 	ev.X1, ev.X2, ev.Alt = x1, x2, alt
 	ev.P = sbig{0, []int{}}
@@ -513,6 +527,10 @@ func mwRecord(out io.Writer, args []string) error {
 		}
 		rng := rand.New(rand.NewSource(*rf.seed*1000003 + int64(idx)))
 		stats.MannWhitneyExactLimit, stats.MannWhitneyTiesExactLimit = 50, 25
+		mwReuse = nil
+		if idx%2 == 1 {
+			mwReuse = &[2][]float64{make([]float64, 400), make([]float64, 400)}
+		}
 		enc.Encode(mwEvent{Op: "Reset", Seed: *rf.seed, Idx: idx, P: sbig{0, []int{}}, X1: []int64{}, X2: []int64{}, Pd: mkfdy(0), Z: mkfdy(0), Phi: mkfdy(0)})
 		for k := 0; k < *calls; k++ {
 			if rng.Intn(3) == 0 {
@@ -541,6 +559,10 @@ func mwRecord(out io.Writer, args []string) error {
 				n1, n2 = 1+rng.Intn(14), 1+rng.Intn(14)
 			default:
 				n1, n2 = 1+rng.Intn(*maxSize), 1+rng.Intn(*maxSize)
+			}
+			heavy := k == 1 && idx%4 == 2 // one call per such history: a tie group of 255..300 values in the first sample
+			if heavy {
+				n1, n2 = []int{255, 256, 257, 300}[rng.Intn(4)]+rng.Intn(3), 5+rng.Intn(20)
 			}
 			var span int64
 			spanKind := rng.Intn(4)
@@ -575,6 +597,17 @@ func mwRecord(out io.Writer, args []string) error {
 			}
 			for i := range x2 {
 				x2[i] = rng.Int63n(span) - span/2 + int64(rng.Intn(2)) + shift
+			}
+			if heavy {
+				for i := range x1 {
+					x1[i] = 5
+					if i < 3 {
+						x1[i] = int64(3 + 2*i)
+					}
+				}
+				for i := range x2 {
+					x2[i] = 3 + rng.Int63n(5)
+				}
 			}
 			alt := rng.Intn(3) - 1
 			ev := mwEvent{Op: "Test", Seed: *rf.seed, Idx: idx}
